@@ -62,6 +62,10 @@ const GENERICS: [&str; 7] = [
     "", "<T>", "<'a, T>", "<'a, T: Clone, const N: usize>", "<const N: usize, T>", "<T: Tr<A = i32> + ?Sized>", "<'a: 'b, 'b, T = i32, const N: usize = 3>",
 ];
 
+pub fn gen_plain_item(d: &mut Dice) -> String {
+    gen_item(d, None)
+}
+
 fn gen_item(d: &mut Dice, attr: Option<(&str, &dyn Fn(&mut Dice, usize) -> Option<String>)>) -> String {
     // positions: 0 container, 1 variant, 2 field
     let at = |d: &mut Dice, pos: usize| -> String {
